@@ -34,7 +34,7 @@ OBSERVING = ("poll", "get-offset", "topic", "stats")
 
 def run_node_property(prop, tier, seed, replay, t0, *, module, gen, n_quick, n_thorough, spec_prefixes,
                       corr_kinds, assumptions, engine="sys", extra_tb=None, maxops_thorough=90,
-                      extra_coverage=None, pre_messages=None, pre_rc=0):
+                      extra_coverage=None, pre_messages=None, pre_rc=0, pre_known_hits=None):
     # 1-2. proofs
     out = vlib.lean_build([module, "judge"])
     names, examples, axioms, bad = vlib.audit(module)
@@ -89,7 +89,7 @@ def run_node_property(prop, tier, seed, replay, t0, *, module, gen, n_quick, n_t
     # 5. evidence + 6. decision
     opdist, covtot, sigs = {}, {}, set()
     total_ops = 0
-    spec_v, corr_d, known_hits = [], [], {}
+    spec_v, corr_d, known_hits = [], [], dict(pre_known_hits or {})
     for name, cfg, ops, trace, j in results:
         for k, v in j["cov"].items():
             covtot[k] = covtot.get(k, 0) + v
@@ -704,6 +704,147 @@ def run_c04(prop, tier, seed, replay, t0):
 
 
 PROPS["C04"] = {"run": run_c04}
+
+def run_c13(prop, tier, seed, replay, t0):
+    """C13. (1) proofs about the codec model; (2) the REAL encoders/decoders on structure-aware values
+    (harness `codec`), each line re-decoded by the Lean model (`codecjudge`): outcomes are judged
+    (property), descriptions compared (correspondence); (3) mutated frames: real decoder vs model
+    (accept/refuse + decoded value); (4) node histories with malformed frames on raw connections."""
+    import gen_malformed
+    module = "Iggy.Props.C13"
+    CJ = f"{vlib.VERIF}/lean/.lake/build/bin/codecjudge"
+    proof_error = None
+    names, examples, axioms, bad = [], 0, [], []
+    try:
+        vlib.lean_build([module, "codecjudge", "judge"])
+        names, examples, axioms, bad = vlib.audit(module)
+    except vlib.BuildError as e:
+        proof_error = str(e)
+    vlib.build_harness()
+    obligations = len(names) + examples
+    known = [k for k in vlib.load_known() if k["property"] == prop]
+    wd = f"{vlib.WORK}/C13"
+    os.makedirs(wd, exist_ok=True)
+    if replay and not replay.endswith(".ops"):
+        # replay file: lines `<kind> <hex>` — decode with the real decoders and the model
+        a = subprocess.run([vlib.HBIN, "codec-decode", replay], stdout=subprocess.PIPE, text=True).stdout
+        b = subprocess.run([CJ, "decode"], stdin=open(replay), stdout=subprocess.PIPE, text=True).stdout
+        print("real:\n" + a + "model:\n" + b)
+        return 1
+    if replay:
+        return run_node_property(prop, tier, seed, replay, t0, module=module, gen=gen_malformed.gen, n_quick=0,
+                                 n_thorough=0, spec_prefixes=["malformed-frame-effect", "obs-changed", "poll-"],
+                                 corr_kinds=None, assumptions=[])
+    nseeds, count = (8, 6000) if tier == "quick" else (48, 40000)
+    nmut = 20000 if tier == "quick" else 400000
+
+    def codec_run(i):
+        sd = seed * 1000 + i
+        edge = 10 if i % 2 == 0 else 0
+        f = f"{wd}/codec{i}.txt"
+        with open(f, "w") as fh:
+            subprocess.run([vlib.HBIN, "codec", str(sd), str(count), str(edge)], stdout=fh, stderr=subprocess.DEVNULL)
+        j = subprocess.run([CJ], stdin=open(f), stdout=subprocess.PIPE, text=True).stdout if proof_error is None else ""
+        lines = open(f).read().splitlines()
+        os.remove(f)
+        return sd, edge, lines, j
+    runs = vlib.parallel(codec_run, list(range(nseeds)), workers=8)
+    outcomes, per_kind, viol, known_hits, corr = {}, {}, [], {}, []
+    total_values = 0
+    for sd, edge, lines, j in runs:
+        for l in lines:
+            f = l.split(" ", 3)
+            if f[0] == "DONE" or len(f) < 3:
+                continue
+            total_values += 1
+            kind, outc = f[0], f[1]
+            per_kind[kind] = per_kind.get(kind, 0) + 1
+            key = outc.split(":")[0]
+            outcomes[key] = outcomes.get(key, 0) + 1
+            if outc in ("OK", "INVALID"):
+                continue
+            if outc.startswith("MISMATCH-SENTINEL:"):
+                classes = outc.split(":", 1)[1].split("+")
+                unknown = [c for c in classes if not any(k["class"] == "codec-sentinel" and re.search(k["shape"], c) for k in known)]
+                for c in classes:
+                    for k in known:
+                        if k["class"] == "codec-sentinel" and re.search(k["shape"], c):
+                            known_hits[k["what"]] = known_hits.get(k["what"], 0) + 1
+                if not unknown:
+                    continue
+            viol.append((sd, edge, l))
+        m = re.search(r"JUDGED total=(\d+) same=(\d+) diff=(\d+)", j)
+        if not m or int(m.group(3)) != 0:
+            corr.append((sd, edge, [x for x in j.splitlines() if x.startswith("DIFF")][:3] or [j[-300:]]))
+    # mutated frames
+    mf = f"{wd}/mut.txt"
+    with open(mf, "w") as fh:
+        subprocess.run([vlib.HBIN, "codec-mutate", str(seed), str(nmut)], stdout=fh, stderr=subprocess.DEVNULL)
+    real = subprocess.run([vlib.HBIN, "codec-decode", mf], stdout=subprocess.PIPE, stderr=subprocess.DEVNULL, text=True).stdout.splitlines()
+    model = subprocess.run([CJ, "decode"], stdin=open(mf), stdout=subprocess.PIPE, text=True).stdout.splitlines() if proof_error is None else []
+    frames = open(mf).read().splitlines()
+    os.remove(mf)
+    mut_stats = {"frames": len(frames), "accepted": 0, "refused": 0, "panic": 0}
+    mut_diffs = []
+
+    def canon(x):
+        return "REFUSED" if x.startswith(("ERROR", "PANIC", "NONE")) else x
+    for i, (a, b) in enumerate(zip(real, model)):
+        if a.startswith("PANIC"):
+            mut_stats["panic"] += 1
+        if a.startswith("OK"):
+            mut_stats["accepted"] += 1
+        else:
+            mut_stats["refused"] += 1
+        if canon(a) != canon(b):
+            mut_diffs.append((frames[i] if i < len(frames) else "?", a[:200], b[:200]))
+    if model and len(real) != len(model):
+        mut_diffs.append(("line-count", str(len(real)), str(len(model))))
+    rc, msgs = 0, []
+    if viol:
+        sd, edge, l = viol[0]
+        f = l.split(" ", 3)
+        path = vlib.write_replay(prop, "codec-violation.txt", f"{f[0]} {f[2] if len(f) > 2 else ''}\n")
+        vlib.write_replay(prop, "codec-violation.info", f"# verif-harness codec {sd} {count} {edge}\n# {l[:3000]}\n")
+        msgs.append(f"VIOLATION property={prop} replay={path}")
+        rc = 1
+    if rc == 0 and (proof_error or bad or corr or mut_diffs):
+        what = proof_error or "\n".join(bad) or (f"codec model and real decoders differ: seed {corr[0][0]} edge {corr[0][1]}: {corr[0][2]}" if corr else
+                                                   f"mutated frame: {mut_diffs[0]}")
+        path = vlib.write_replay(prop, "proof-or-correspondence.txt", what[:6000])
+        msgs.append(f"VIOLATION property={prop} replay={path} no-failing-input-found")
+        rc = 1
+    coverage = {
+        "obligations": max(obligations, 1), "discharged": obligations if not (proof_error or bad) else 0,
+        "checker_cmd": "lake build Iggy.Props.C13 codecjudge && lake env lean Iggy/Audit/C13.lean (#print axioms)",
+        "trusted_base": COMMON_TB[:1] + [
+            "hand-written codec model lean/Iggy/Codec (encoders and decoders in separate files, each mirroring its Rust source), tied to the code on every run: every generated value's REAL bytes are decoded by the model and the canonical description compared with the real decoder's; mutated frames likewise (accept/refuse and value)",
+            "harness codec modes (generators use SDK constructors only; canonical descriptions in codec_desc.rs)",
+            "UTF-8 validity in the model is the executable validUtf8 (agrees with from_utf8 on every frame of every run; no proof)"],
+        "theorems": names, "nonvacuity_examples": examples, "axioms_used": axioms,
+        "programs": len(per_kind), "traces_validated_against_impl": len(runs) + 1,
+        "evaluations": total_values + len(frames), "distinct_nontrivial": len(per_kind),
+        "rule": "CODEC: values = structure-aware random values of all 45 commands + RetainedMessage, RetainedBatch, StateEntry, EntryCommand (all 19), half of the runs with 10% edge probes (boundary values validate() accepts or refuses); evaluations = values round-tripped through the real encoder+decoder and re-decoded by the Lean model + mutated/truncated frames decoded by both; distinct = kinds of value covered",
+        "samples": [{"values_per_kind": per_kind}, {"outcomes": outcomes}, {"mutated_frames": mut_stats}],
+        "codec_outcomes": outcomes, "mutated_frames": mut_stats, "codec_model_diffs": len(corr), "mutated_frame_diffs": len(mut_diffs),
+        "codec_violations": len(viol),
+    }
+    if proof_error:
+        vlib.write_evidence(prop, tier, seed, coverage, ["proof build failed: node history part not run"], time.time() - t0, 1)
+        for m in msgs:
+            print(m)
+        return 1
+    return run_node_property(
+        prop, tier, seed, None, t0, module=module, gen=gen_malformed.gen, n_quick=48, n_thorough=1500,
+        spec_prefixes=["malformed-frame-effect", "obs-changed", "poll-"], corr_kinds=None,
+        assumptions=ASSUME_NODE + [
+            "PARTIAL: HTTP/JSON transport is not driven (serde derives on the same structs); QUIC shares the binary codec",
+            "responses: the model covers the response frame; the per-entity response mappers (server binary/mapper.rs vs sdk binary/mapper.rs) are exercised end-to-end by every node history of every property (real server mapper -> real SDK decoder -> compared with the model's expected data), not modelled byte by byte",
+            "malformed frames: what a frame does is judged from outside (answer kind, every other connection, catalogue, logs, restart)"],
+        extra_coverage=coverage, pre_messages=msgs, pre_rc=rc, pre_known_hits=known_hits)
+
+
+PROPS["C13"] = {"run": run_c13}
 
 import gen_conc
 PROPS["C12"] = {"run": lambda p, tier, seed, replay, t0: run_node_property(
